@@ -111,7 +111,7 @@ class Check:
               "coverage": self.cov, "assumptions": self.assumptions,
               "wall_s": round(time.time() - self.t0, 2), "violations": len(seen)}
         os.makedirs(os.path.join(VERIF, "evidence"), exist_ok=True)
-        with open(os.path.join(VERIF, "evidence", self.pid + ".json"), "w") as f:
+        with open(os.path.join(VERIF, "evidence", self.pid + os.environ.get("VERIF_EVIDENCE_SUFFIX", "") + ".json"), "w") as f:
             json.dump(ev, f, indent=1, sort_keys=True)
         print("%s %s: %d evaluations, %d states, %d traces validated, %d unjudged, %d violation signature(s), %d known finding(s) hit, %.1fs" % (
             self.pid, self.tier, self.cov["evaluations"], self.cov["states"],
